@@ -111,6 +111,20 @@ CLAIMED['C02'] = dict(
     technique="Lean 4 theorems over the loading loop + source bridge + differential tampering with an independent Manifest writer",
     ref='§7 C02')
 
+CLAIMED['C15'] = dict(
+    text=("Lean theorem over the model of find_top_level_manifest on a chain of directories of any length: whenever discovery returns "
+          "normally its result equals the specification `outermost` — the outermost level contributing a Manifest among those passed "
+          "before the first stopping level (a Manifest whose first matching entry IGNOREs the starting path, another device or a "
+          "Manifest on another device when crossing is disallowed) or up to the root; levels without a Manifest are passed through "
+          "(C15_outermost via climb_eq, by induction on the chain). Also: nothing on a foreign device is returned "
+          "(C15_no_foreign_device), only offered candidate names are returned (C15_only_offered_names), IGNORE matches the start path "
+          "by whole components incl. the look-alike case (C15_ignore_lookalike). Tie: Bridge.FindTop (decision points, candidate "
+          "names, the only caught exception, loop tail); differential runs on real directory chains where the model's chain is read "
+          "back from the disk, exhaustive small family + random chains to depth 6, st_dev overridden for device boundaries."),
+    note=TB + "Hypothesis: no symlinked component in the starting path (relpath is textual). Device boundaries are simulated by overriding st_dev in stat/fstat.",
+    technique="Lean 4 theorem (algorithm = outside-in specification, by induction on the directory chain) + bridge + differential chains",
+    ref='§7 C15')
+
 PENDING = ['C01', 'C02', 'C03', 'C04', 'C05', 'C06', 'C07', 'C08', 'C10', 'C11', 'C12', 'C13', 'C14', 'C15', 'C16',
            'C17', 'C18', 'C19', 'C20']
 
